@@ -391,6 +391,47 @@ pub fn plan(tier: Tier) -> Plan {
             ));
         }
     }
-    p.must_be_nonzero = vec!["bulk_calls".into()];
+    // histories over an alphabet with a LONG key (2000 bytes), its short
+    // prefixes and neighbours: buffers that grow and are reused
+    {
+        let long: Key = vec![b'm'; 2000];
+        let mut longa = long.clone();
+        longa.push(b'a');
+        let keys: Vec<Key> = vec![b"".to_vec(), b"m".to_vec(), b"ma".to_vec(), b"mm".to_vec(), long.clone(), longa, b"n".to_vec()];
+        for is_map in [true, false] {
+            let alphabet: Vec<Kv> = keys.iter().map(|k| (k.clone(), if is_map { 5 } else { 0 })).collect();
+            for first in 0..alphabet.len() {
+                let alphabet = alphabet.clone();
+                p.units.push(unit("long-key-alphabet-histories-depth<=4", format!("long keys {} first {}", if is_map { "map" } else { "set" }, first), move |st, rep| {
+                    let n = alphabet.len();
+                    for code in 0..(n * n * n) {
+                        for len in 1..=4usize {
+                            if len < 4 && code >= n.pow(len as u32 - 1) {
+                                continue;
+                            }
+                            let mut h: Vec<Kv> = vec![alphabet[first].clone()];
+                            let mut c = code;
+                            for _ in 1..len {
+                                h.push(alphabet[c % n].clone());
+                                c /= n;
+                            }
+                            let kinds: &[BKind] = if is_map { &[BKind::Map, BKind::RawInsert] } else { &[BKind::Set, BKind::RawAdd] };
+                            for &kind in kinds {
+                                st.states += 1;
+                                st.evals += 1;
+                                st.transitions += h.len() as u64 + 1;
+                                st.count("long_key_histories", 1);
+                                if let Err(msg) = run_history(kind, &h) {
+                                    let short = |h: &[Kv]| h.iter().map(|(k, _)| if k.len() > 8 { format!("m*{}{}", k.iter().filter(|&&b| b == b'm').count(), if k.last() == Some(&b'a') { "a" } else { "" }) } else { key_str(k) }).collect::<Vec<_>>().join(" ");
+                                    rep.violation(format!("{:?} [{}]", kind, short(&h)), msg, json!({"target": format!("{:?}", kind), "history": hist_json(&h)}));
+                                }
+                            }
+                        }
+                    }
+                }));
+            }
+        }
+    }
+    p.must_be_nonzero = vec!["bulk_calls".into(), "long_key_histories".into()];
     p
 }
